@@ -12,7 +12,7 @@
     allocation, LIKE matching, ORDER BY tsb / LIMIT; (4) the main loop's decision
     whether a line is recorded.  No proofs here. *)
 From Coq Require Import ZArith.
-From Cicada Require Import Base.Chars.
+From Cicada Require Import Base.Chars Base.Tag.
 Local Open Scope N_scope.
 
 (* ------------------------------------------------------------------ statements *)
@@ -253,10 +253,45 @@ Fixpoint tsb_nondecr (l : list row) : bool :=
   end.
 
 (* ------------------------------------------------------------------ main loop: what is recorded *)
+(** tools::extend_bangbang (the !! expansion of the interactive loop), with the tokenizer
+    (parse_line) as a parameter.  A line without the two-character text !! and any line
+    while previous_cmd is empty are returned unchanged; otherwise the line is REBUILT from
+    its tokens: each token between its quote marks, !! replaced by previous_cmd in every
+    token that is not single-quoted, tokens joined by one blank, trailing blanks trimmed.
+    So the rebuilt line has its blanks normalised and, in particular, no leading blank.
+    (Regex::replace_all takes previous_cmd as a replacement TEMPLATE: a dollar sign in it
+    is read as a group reference -- not modelled, the checks use no dollar sign.) *)
+Definition c_excl := 33.
+Fixpoint has_bb (s : str) : bool :=
+  match s with
+  | a :: ((b :: _) as r) => ((a =? c_excl) && (b =? c_excl)) || has_bb r
+  | _ => false
+  end.
+Fixpoint replace_bb (prev s : str) : str :=
+  match s with
+  | a :: r =>
+    match r with
+    | b :: r' => if (a =? c_excl) && (b =? c_excl) then prev ++ replace_bb prev r' else a :: replace_bb prev r
+    | [] => [a]
+    end
+  | [] => []
+  end.
+Definition sep_str (t : tag) : str :=
+  match t with TNone => [] | TSq => [c_sq] | TDq => [c_dq] | TBq => [c_bq] | TBs => [c_bs] end.
+Definition rebuild_token (prev : str) (tk : tag * str) : str :=
+  let (sep, tok) := tk in
+  sep_str sep ++ (if has_bb tok && negb (tag_eqb sep TSq) then replace_bb prev tok else tok) ++ sep_str sep ++ [c_space].
+Definition extend_bangbang (tokenize : str -> list (tag * str)) (prev line : str) : str :=
+  if negb (has_bb line) then line
+  else if is_empty prev then line
+  else trim_end (concat (map (rebuild_token prev) (tokenize line))).
+
 Definition starts_with_space (s : str) : bool := match s with c :: _ => c =? c_space | [] => false end.
 
 (** One iteration of the read loop (main.rs): [typed] is the line read (after
-    trim_multiline_prompts); [bang prev typed] is tools::extend_bangbang.
+    trim_multiline_prompts), kept in sh.cmd; [bang prev typed] is tools::extend_bangbang
+    applied to a copy.  The leading-blank guard looks at the TYPED text (sh.cmd), the
+    repeat test and the text handed to history::add are the EXPANDED line.
     Result: the line handed to history::add (if any) and the new previous_cmd. *)
 Definition session_step (bang : str -> str -> str) (prev typed : str) : option str * str :=
   if is_empty (trim typed) then (None, prev) else
